@@ -449,6 +449,9 @@ func c18Gen(t *rapid.T) interface{} {
 		}
 	}
 	words = append(words, aliases...)
+	// the comment delimiters of the *other* languages: inside a comment or in code of this language they are plain text
+	foreign := []string{"*/", "/*", "%}", "%{", "-->", "<!--", "=end", "=begin", "]]", "#[[", "-}", "{-", "'''", "//", "--", "#", ";", "%", "!", "@REM", "REM"}
+	words = append(words, foreign...)
 	for i := 0; i < n; i++ {
 		switch lib.IntN(t, 0, 6, "lexeme") {
 		case 0, 1: // code run
@@ -475,7 +478,7 @@ func c18Gen(t *rapid.T) interface{} {
 			if st := l.MultilineCommentStart(); st != "" {
 				sb.WriteString(st)
 				for j := 0; j < lib.IntN(t, 0, 4, "nml"); j++ {
-					sb.WriteString(lib.PickStr(t, append([]string{"", "a", "\n", " text ", "\"", "'", "*", "-", "\n\n", " é "}, aliases...), "mlpart"))
+					sb.WriteString(lib.PickStr(t, append(append([]string{"", "a", "\n", " text ", "\"", "'", "*", "-", "\n\n", " é "}, aliases...), foreign...), "mlpart"))
 				}
 				sb.WriteString(l.MultilineCommentEnd())
 			}
